@@ -25,9 +25,10 @@ inductive DOp
   | req (r : DReq)
   | send (nonce : String) (ok : Bool)
 
-/-- The server side of the exchange (named types: sends do not rewrite the recorded names). -/
+/-- The server side of the exchange (named types: sends do not rewrite the recorded names).  `keepSub = false`
+    is the code before the repairs of `shouldRespondDelta` (ea06a0f, a581d69). -/
 def runOp (keepSub : Bool) (t : Ty) (s : State) : DOp → State
-  | .req r => (shouldRespondDeltaG true keepSub s r).state
+  | .req r => (shouldRespondDeltaG true keepSub keepSub s r).state
   | .send n ok => sendDelta s t n none ok
 
 def runOps (keepSub : Bool) (t : Ty) (s : State) (ops : List DOp) : State := ops.foldl (runOp keepSub t) s
@@ -88,7 +89,7 @@ theorem delta_step_record (s : State) (r : DReq) (prev : WR)
     · obtain ⟨b, s', w, hr, hw, hmem⟩ := delta_record_matches_request_nack s r prev msg he hprev hc hm'
       refine ⟨w, by rw [hr]; exact hw, applied w hmem⟩
     · have hcf : r.carries = false := by simpa using hc
-      rw [delta_nack_silent s r msg he hcf, hprev]
+      rw [delta_nack_silent s r msg prev he hprev hcf]
       refine ⟨{ prev with lastError := msg }, by simp [DRes.state], unchanged hcf⟩
   | none =>
     by_cases hkept : r.nonce = "" ∨ r.nonce = prev.nonceSent ∨ r.carries = true
@@ -155,7 +156,7 @@ def staleOps : List DOp :=
   [.send "n1" true, .send "n2" true, .req staleAckWithSub, .req ackN2]
 
 def afterFirst (keepSub : Bool) : State :=
-  (shouldRespondDeltaG true keepSub State.empty
+  (shouldRespondDeltaG true keepSub keepSub State.empty
     { ty := .eds, sub := ["a"], unsub := [], init := [], nonce := "", err := none }).state
 
 /-- The hypotheses of `delta_trace_record` hold on that trace (non-vacuity) ... -/
